@@ -15,8 +15,10 @@ PARTIAL = [
     "sweep_rational_point proves that the homogeneous point map used for sweeps projects to the translate",
     "knot vectors are carried through unchanged; the validation / normalisation done by the knot-vector setters "
     "is not modelled here (C03)",
-    "volume evaluation is tied to the layout by the exact oracle only (tensor-product reference); the Lean "
-    "evaluation theorem covers surfaces (transpose_eval, transpose_eval_point)",
+    "volume evaluation is tied to the layout through extract_surfaces (volume_eval_through_extracted_surfaces: "
+    "V(u,v,w) = curve point of the polygon of extracted-surface points, all three families) and by the exact "
+    "oracle (tensor-product reference); there is no Lean evaluation theorem for construct_volume output other "
+    "than through the round-trip theorems (extract_construct_volume)",
 ]
 ASSUMPTIONS = [
     "weights are non-zero (rational shapes are compared on their homogeneous nets)",
